@@ -7,7 +7,7 @@ import time
 import warnings
 from typing import Any
 
-from .. import semgen, semlean, semrun
+from .. import semfam, semgen, semlean, semrun
 from ..common import hx, unhx
 from ..runner import Check
 from ..translate import constraints as tconstraints
@@ -374,6 +374,8 @@ def diff_cause(d: semrun.Diff) -> str:
         v = leaf.get(d.keyword)
         if isinstance(v, float) and v != int(v):
             return "nonintegral_bound_on_integer"
+    if leaf.get("k") == "object" and leaf.get("type_list_null") and not leaf.get("props") and isinstance(leaf.get("ap"), dict) and d.location == "ap_value":
+        return "nullable_map_value"  # the map object itself is the leaf: its value schema is not reported at all
     if d.keyword == "required":
         if leaf.get("inherited_required"):
             return "allOf_required_inherited_member"
@@ -550,6 +552,7 @@ def focused_docs() -> list[tuple[str, dict]]:
         )
     )
     docs += allof_required_docs()
+    docs += zero_bound_docs()
     # integer bounds that are exact as integers and not as doubles, and the edges of int64
     big = {"lo53": {"type": "integer", "minimum": 2**53 + 1}, "hi63": {"type": "integer", "maximum": 2**63 - 1}, "hi53": {"type": "integer", "maximum": 2**53 + 3}, "neg": {"type": "integer", "minimum": -(2**53) - 1}, "both": {"type": "integer", "minimum": 2**53 + 1, "maximum": 2**53 + 5}}
     docs.append(("big_integer_bounds", {"title": "Model", "type": "object", "properties": big, "required": list(big)}))
@@ -573,6 +576,34 @@ def focused_docs() -> list[tuple[str, dict]]:
         )
     )
     return docs
+
+
+ZERO_LEAVES: dict[str, dict] = {
+    "xmin0": {"type": "number", "exclusiveMinimum": 0},
+    "xmax0": {"type": "integer", "exclusiveMaximum": 0},
+    "min0": {"type": "number", "minimum": 0},
+    "max0": {"type": "integer", "maximum": 0},
+    "maxLen0": {"type": "string", "maxLength": 0},
+    "minLen0": {"type": "string", "minLength": 0},
+    "maxItems0": {"type": "array", "items": {"type": "integer"}, "maxItems": 0},
+    "minItems0": {"type": "array", "items": {"type": "integer"}, "minItems": 0},
+}
+
+
+def zero_bound_docs() -> list[tuple[str, dict]]:
+    """the boundary value 0 of EVERY bound keyword (a value that is falsy in Python: `if bound:` / `bound not in
+    {None, False}` are the classic ways to lose it) at every kind of place: member and `additionalProperties` value,
+    array item, union alternative (scalars: an array with item counts as a union alternative is D31u)"""
+    Z = ZERO_LEAVES
+    scal = {k: v for k, v in Z.items() if v["type"] != "array"}
+    return [
+        (
+            "zero_bounds_member_apvalue",
+            {"title": "Model", "type": "object", "properties": {**Z, **{f"d_{k}": {"type": "object", "additionalProperties": v} for k, v in scal.items()}}, "required": list(Z)},
+        ),
+        ("zero_bounds_array_item", {"title": "Model", "type": "object", "properties": {k: {"type": "array", "items": v} for k, v in Z.items()}, "required": list(Z)}),
+        ("zero_bounds_union_alt", {"title": "Model", "type": "object", "properties": {k: {"anyOf": [v, {"type": "boolean"}]} for k, v in scal.items()}, "required": list(scal)}),
+    ]
 
 
 def allof_required_docs() -> list[tuple[str, dict]]:
@@ -704,6 +735,167 @@ def campaign_random(ck: Check, n: int) -> None:
     camp.wall_s = time.time() - t0
 
 
+def _is_placeholder(f) -> bool:
+    """the test of `Parser.__override_required_field`: a field with an original name and no type at all"""
+    dt = f.data_type
+    return bool(f.original_name) and not (dt.data_types or dt.reference or dt.type or dt.literals or dt.dict_key)
+
+
+def _field_content(f) -> tuple:
+    return (f.name, f.original_name, f.alias, f.data_type.type_hint, repr(f.constraints), repr(f.default))
+
+
+def campaign_inherit(ck: Check, n: int) -> None:
+    """Model.Inherit (`findField`, `overrideAll`) against the real `_find_field` / `Parser.__override_required_field`
+    on the classes the real parser builds for the lattice family (stage 1 of the real parser; the table — fields,
+    placeholders, base-class edges — is read off its DataModel objects)"""
+    from datamodel_code_generator.model.enum import Enum
+    from datamodel_code_generator.parser import base as pbase
+
+    ca = ck.campaign("inh.find (Model.Inherit.findField, fuel = queueCost) vs parser.base._find_field on the parsed lattice family")
+    cb = ck.campaign("inh.pass (Model.Inherit.overrideAll) vs Parser.__override_required_field: fields of every class after the pass (name, required, source declaration)")
+    t0 = time.time()
+    rng = ck.rng.fork("inherit")
+    off = rng.below(96)
+    jobs = []
+    for i in range(n):
+        doc, feats, _where = semfam.lattice_doc(rng.fork(str(i)), off + i, undeclared_required=(i % 4 == 1))
+        for st in STYLES if i % 2 == 0 else ("v2",):
+            try:
+                p = semlean._parser(doc, st, "contype")
+            except Exception as e:  # noqa: BLE001
+                ca.unmodelled += 1
+                ca.hit(f"parser-raised:{type(e).__name__}")
+                continue
+            models = list(pbase.sort_data_models(p.results)[1].values())
+            tag_of: dict[int, int] = {}
+            by_tag: dict[int, Any] = {}
+            names = [m.class_name for m in models]
+            if len(set(names)) != len(names):
+                ca.unmodelled += 1
+                continue
+            rows = []
+            for m in models:
+                frows = []
+                for f in m.fields:
+                    t = len(by_tag) + 1
+                    tag_of[id(f)], by_tag[t] = t, f
+                    frows.append(f"({hx(f.original_name or '')} {1 if f.required else 0} {1 if _is_placeholder(f) else 0} {t})")
+                bs = [b.reference.source.class_name for b in m.base_classes if b.reference and isinstance(b.reference.source, pbase.DataModel)]
+                rows.append(f"({hx(m.class_name)} ({' '.join(frows)}) ({' '.join(hx(b) for b in bs)}))")
+            table = "(" + " ".join(rows) + ")"
+            root_t = p.data_model_root_type
+            order = [m for m in models if not isinstance(m, (Enum, root_t))]
+            finds = [(m, f) for m in order for f in m.fields if _is_placeholder(f)]
+            jobs.append((doc, st, feats, p, models, order, table, tag_of, by_tag, finds))
+    reqs = []
+    for doc, st, feats, p, models, order, table, tag_of, by_tag, finds in jobs:
+        for m, f in finds:
+            reqs.append(f"inh.find {table} {hx(m.class_name)} {hx(f.original_name)}")
+        reqs.append(f"inh.pass {table} ({' '.join(hx(m.class_name) for m in order)})")
+    replies = iter(ck.driver.run(reqs))
+    for doc, st, feats, p, models, order, table, tag_of, by_tag, finds in jobs:
+        for ft in feats:
+            cb.hit(f"feature:{ft}")
+        for m, f in finds:
+            rep = next(replies)
+            ca.evaluations += 1
+            real_f = pbase._find_field(f.original_name, pbase._find_base_classes(m))
+            owner = next((x.class_name for x in models if any(y is real_f for y in x.fields)), None) if real_f is not None else None
+            real = "absent" if real_f is None else f"found {owner} {tag_of.get(id(real_f))}"
+            if rep.startswith("ok found "):
+                parts = semlean.parse_sx(rep[len("ok found "):])
+                model = f"found {unhx(parts[0])} {parts[1][3]}"
+            else:
+                model = rep[3:]
+            ca.hit("found" if real_f is not None else "absent")
+            ca.distinct.add(hash((table, m.class_name, f.original_name)))
+            if model != real:
+                ck.disagree(ca, {"doc": doc, "style": st, "class": m.class_name, "name": f.original_name}, model, real)
+            elif len(ca.samples) < 2:
+                ca.samples.append({"doc": doc, "style": st, "class": m.class_name, "name": f.original_name, "lookup": real})
+        rep = next(replies)
+        cb.evaluations += 1
+        p._Parser__override_required_field(order)
+        if not rep.startswith("ok "):
+            ck.infra_errors.append(f"driver reply {rep!r} for inh.pass")
+            continue
+        model_rows = {unhx(r[0]): [(unhx(x[0]), x[1] == "1", int(x[3])) for x in r[1:]] for r in semlean.parse_sx(rep[3:])[0]}
+        for m in models:
+            real_rows = [(f.original_name or "", bool(f.required)) for f in m.fields]
+            mrows = model_rows.get(m.class_name, [])
+            cb.distinct.add(hash((table, m.class_name)))
+            ok = [(a, b) for a, b, _ in mrows] == real_rows
+            if ok:
+                # a re-declared member is a copy of the declaration the model names
+                for (a, b, t), f in zip(mrows, m.fields):
+                    if id(f) not in tag_of and _field_content(f) != _field_content(by_tag[t]):
+                        ok = False
+            if any(id(f) not in tag_of for f in m.fields):
+                cb.hit("class_with_redeclared_member")
+            if not ok:
+                ck.disagree(cb, {"doc": doc, "style": st, "class": m.class_name}, [(a, b, _field_content(by_tag[t])[3]) for a, b, t in mrows], [(a, b, f.data_type.type_hint) for (a, b), f in zip(real_rows, m.fields)])
+            elif len(cb.samples) < 2 and any(id(f) not in tag_of for f in m.fields):
+                cb.samples.append({"doc": doc, "style": st, "class": m.class_name, "fields_after_pass": real_rows})
+    for c in (ca, cb):
+        c.wall_s = round((time.time() - t0) / 2, 2)
+
+
+def campaign_nullable(ck: Check, n: int) -> None:
+    """the nullable-type-list family of C03 (every type × every position) under C04's oracle: constraints stated below
+    or next to a `"type": [T, "null"]` must still be enforced and reported"""
+    camp = ck.campaign("e2e oracle, family: nullable type lists [T, \"null\"] for every type T × every position: one-step invalid mutations rejected, keywords reported")
+    t0 = time.time()
+    rng = ck.rng.fork("fam-nullable")
+    off = rng.below(96)
+    for i in range(n):
+        doc, feats, cand = semfam.nullable_doc(rng.fork(str(i)), off + i)
+        for f in feats:
+            camp.hit(f"feature:{f}")
+        insts = semgen.valid_instances(doc, limit=8)
+        insts += [c for c in cand if c not in insts and semgen.is_valid(doc, c)][:6]
+        muts = []
+        for inst in insts[:3]:
+            muts += semgen.mutations(doc, inst)
+        for st in STYLES:
+            for r in ("contype", "field"):
+                oracle_doc(ck, camp, doc, st, r, insts, muts)
+    camp.wall_s = time.time() - t0
+
+
+def campaign_lattice(ck: Check, n: int) -> None:
+    """`required` next to `allOf` naming INHERITED members, over inheritance lattices (several `$ref` bases, depth
+    >= 2, diamonds): the member must be required in the generated class — the missing-member mutation rejected,
+    `required` reported — wherever in the lattice it is declared (Parser.__override_required_field / _find_field)"""
+    camp = ck.campaign("e2e oracle, family: allOf with several $ref bases × inheritance depth >= 2 × `required` naming inherited members at every position of the base lattice")
+    t0 = time.time()
+    rng = ck.rng.fork("fam-lattice")
+    off = rng.below(96)
+    for i in range(n):
+        doc, feats, where = semfam.lattice_doc(rng.fork(str(i)), off + i)
+        for f in feats:
+            camp.hit(f"feature:{f}")
+        insts = semgen.valid_instances(doc)
+        muts = []
+        for inst in insts[:2]:
+            muts += semgen.mutations(doc, inst)
+        seen = set()
+        for m in muts:
+            if m.keyword == "required":
+                holder = m.path[0] if len(m.path) > 1 else ""
+                pos = (where.get(holder) or {}).get(m.path[-1])
+                if pos is not None and (holder, m.path[-1]) not in seen:
+                    seen.add((holder, m.path[-1]))
+                    camp.hit("missing_member_mutation:" + ("own" if pos[0] < 0 else f"base{min(pos[0], 2)}_up{min(pos[1], 3)}"))
+        missing = [(h, nm) for h, names in where.items() for nm in names if (h, nm) not in seen]
+        if missing:
+            camp.hit("required_name_without_confirmed_mutation", len(missing))
+        for st in STYLES:
+            for r in ROUTINGS:
+                oracle_doc(ck, camp, doc, st, r, insts, muts)
+    camp.wall_s = time.time() - t0
+
+
 # ============================================================ search, findings, replay
 def search_broken_keyword(ck: Check) -> None:
     """model-side refuter → implementation-side oracle on a document built around that keyword"""
@@ -722,6 +914,19 @@ def search_broken_keyword(ck: Check) -> None:
                 todo.append((st, r, wrap))
     for st, r, doc in todo:
         oracle_doc(ck, camp, doc, st, r)
+    if not ck.failures:
+        # the families: inheritance lattices (a broken inh.find / inh.pass shows there), nullable type lists
+        rng = ck.rng.fork("search-families")
+        for i in range(40):
+            doc, _f, _w = semfam.lattice_doc(rng.fork(f"l{i}"), i)
+            for st in STYLES:
+                oracle_doc(ck, camp, doc, st, "contype")
+            doc, _f, _c = semfam.nullable_doc(rng.fork(f"n{i}"), i)
+            oracle_doc(ck, camp, doc, "v2", "contype")
+            from ..runner import match_finding
+
+            if any(match_finding(ck.findings, f.classification) is None for f in ck.failures):
+                return
     if not ck.failures:
         for _label, doc in focused_docs() + ap_value_docs():
             for st in STYLES:
@@ -762,6 +967,9 @@ def run(ck: Check) -> None:
     campaign_pfields(ck, 60 if quick else 600)
     campaign_focused(ck)
     campaign_random(ck, 80 if quick else 1200)
+    campaign_nullable(ck, 13 if quick else 120)
+    campaign_inherit(ck, 24 if quick else 300)
+    campaign_lattice(ck, 14 if quick else 150)
     ck.search_hooks.append(search_broken_keyword)
     known_findings(ck)
 
